@@ -482,9 +482,18 @@ class NPShim:
             rat_map(probe, unwrap(x))
             if cut:
                 self.it.assume("clip(x, %s, %s) cuts values x takes (sampled range %.3g..%.3g): kept as a clip" % (lo_c, hi_c, cut[0][1][0], cut[0][1][1]))
-                return rat_map(lambda v, a, b: P.fn("clip", v, a, b), unwrap(x), lo, hi)
+                return self._clip_atom(x, lo, hi)
             self.it.assume("clip(x, lo, hi) treated as x (value inside the clipping interval)")
             return to_obj(unwrap(x))
+        return self._clip_atom(x, lo, hi)
+
+    def _clip_atom(self, x, lo, hi):
+        if lo is None and hi is None:
+            return to_obj(unwrap(x))
+        if hi is None:
+            return rat_map(lambda v, a: P.fn("max", v, a), unwrap(x), lo)
+        if lo is None:
+            return rat_map(lambda v, b: P.fn("min", v, b), unwrap(x), hi)
         return rat_map(lambda v, a, b: P.fn("clip", v, a, b), unwrap(x), lo, hi)
 
     def real(self, x):
